@@ -288,14 +288,20 @@ def run_impl(case):
                 except Exception:
                     pass
                 _frame(T, d0, d2, p, fails, 'delete_in')
+            base = copy.deepcopy(d0)
             try:
-                d3 = T.update_in(copy.deepcopy(d0), p, lambda cur: 'NEW')
+                d3 = T.update_in(base, p, lambda cur: 'NEW')
             except Exception:
                 d3 = None
             if d3 is not None:
                 if T.get_in(d3, p, missing) != 'NEW':
                     fails.append('update_in: addressed entry not updated')
                 _frame(T, d0, d3, p, fails, 'update_in')
+                # it *returns* the updated dictionary: the one handed in is as before, so that a second
+                # alternative derived from the same base differs from it in its own subtree only
+                if base != d0:
+                    fails.append('update_in: the dictionary handed in was modified (the result is not a new '
+                                 'dictionary differing in the addressed subtree only)')
         if _no_empty_dict(d0) and d0:
             pl = T.dict_to_paths((), copy.deepcopy(d0))
             back = T.paths_to_dict(pl)
